@@ -832,11 +832,55 @@ func c07Execute(t *testing.T, rep *kit.Report, b kit.V, bi int, budget time.Dura
 		}
 	}
 	t0 := time.Now()
-	// waitFor waits until cond holds; false = an operating member failed or the budget ran out
+	counts := map[string]int{}
+	// the behaviour contains every delivery the operating members need; from here on the network behaves like the real one
+	// with retransmissions: everything that was sent keeps being delivered to everybody (duplicates and rejected messages
+	// are harmless for a correct member)
+	lastFlush := time.Now()
+	flush := func() {
+		if time.Since(lastFlush) < 300*time.Millisecond {
+			return
+		}
+		lastFlush = time.Now()
+		hub.mu.Lock()
+		type pend struct {
+			k c07MsgKey
+			m net.TaggedMarshaler
+		}
+		var all []pend
+		for k, m := range hub.sent {
+			all = append(all, pend{k, m})
+		}
+		var rcv []int
+		for i := range hub.handlers {
+			rcv = append(rcv, i)
+		}
+		hub.mu.Unlock()
+		for _, p := range all {
+			for _, i := range rcv {
+				if _, fin := results[i]; fin {
+					continue
+				}
+				if _, err := hub.deliver(i, p.m, w.keys[p.k.s]); err != nil {
+					t.Fatalf("harness: flush: %v", err)
+				}
+			}
+		}
+		counts["flush_rounds"]++
+	}
+	patience := time.Duration(kit.IntEnv("VERIF_PATIENCE_S", 25)) * time.Second
+	// waitFor waits until cond holds; false = an operating member failed or the budget ran out. A wait that lasts longer
+	// than the patience means the members need more than the behaviour delivered so far (on a correct member: never,
+	// unless the machine is very slow): the network then delivers everything sent so far, as retransmissions would.
 	waitFor := func(cond func() bool) bool {
+		w0 := time.Now()
 		for {
 			if cond() {
 				return true
+			}
+			if time.Since(w0) > patience {
+				flush()
+				counts["impatient_flush"] = 1
 			}
 			drain()
 			for i := range errs {
@@ -850,7 +894,6 @@ func c07Execute(t *testing.T, rep *kit.Report, b kit.V, bi int, budget time.Dura
 			time.Sleep(5 * time.Millisecond)
 		}
 	}
-	counts := map[string]int{}
 	steps := b.Get("steps").List()
 	aborted := false
 	for si, st := range steps {
@@ -917,41 +960,6 @@ func c07Execute(t *testing.T, rep *kit.Report, b kit.V, bi int, budget time.Dura
 		if aborted {
 			break
 		}
-	}
-	// the behaviour contains every delivery the operating members need; from here on the network behaves like the real one
-	// with retransmissions: everything that was sent keeps being delivered to everybody (duplicates and rejected messages
-	// are harmless for a correct member)
-	lastFlush := time.Now()
-	flush := func() {
-		if time.Since(lastFlush) < 300*time.Millisecond {
-			return
-		}
-		lastFlush = time.Now()
-		hub.mu.Lock()
-		type pend struct {
-			k c07MsgKey
-			m net.TaggedMarshaler
-		}
-		var all []pend
-		for k, m := range hub.sent {
-			all = append(all, pend{k, m})
-		}
-		var rcv []int
-		for i := range hub.handlers {
-			rcv = append(rcv, i)
-		}
-		hub.mu.Unlock()
-		for _, p := range all {
-			for _, i := range rcv {
-				if _, fin := results[i]; fin {
-					continue
-				}
-				if _, err := hub.deliver(i, p.m, w.keys[p.k.s]); err != nil {
-					t.Fatalf("harness: flush: %v", err)
-				}
-			}
-		}
-		counts["flush_rounds"]++
 	}
 	// every operating member must now complete
 	done := waitFor(func() bool {
